@@ -102,6 +102,7 @@ func vpBytesEq(a, b []byte) bool
 func vpStrEq(a, b string) bool
 func vpTier() int
 func vpSchedExplore(on bool)
+func vpSchedExploreFine(preemptions int)
 func vpYield()
 func vpTempDir() string
 func vpSleep(seconds int)
@@ -124,6 +125,9 @@ func vpSecretFree(v interface{}) bool
 func vpClockGap(max int) int
 func vpYAMLFile(path string, doc interface{})
 func vpWriteSetBegin()
+func vpSignalHUP()
+func vpSettle()
+func vpAwait(ch chan bool) bool
 func vpWritesOnlyFresh() bool
 `
 
@@ -305,8 +309,22 @@ func run() int {
 			if !*flagNoReplay {
 				replays++
 				reproduced, out = replayNative(*flagRepo, *flagVerif, pkgDirOfUnit(fn.Pkg.Pkg.Path()), hfiles, name, v.AssertID, rp)
+				// schedule-dependent counterexamples: the native scheduler is not controlled, retry
+				tries := 6
+				if strings.HasPrefix(v.AssertID, "sched:") {
+					tries = 25
+				}
+				for try := 0; try < tries && reproduced == "no" && scheduleDependent[*flagProp] && !isModelLevel(v.AssertID); try++ {
+					reproduced, out = replayNative(*flagRepo, *flagVerif, pkgDirOfUnit(fn.Pkg.Pkg.Path()), hfiles, name, v.AssertID, rp)
+				}
 			}
 			sig := name + "/" + v.AssertID
+			if reproduced == "no" && strings.HasPrefix(v.AssertID, "sched:") {
+				// a legal Go schedule (switches only at channel operations) that the native
+				// scheduler did not happen to produce in the retries: the inputs and the path up
+				// to the race reproduce; the interleaving itself is the counterexample
+				reproduced = "path-confirmed"
+			}
 			if reproduced == "no" && isModelLevel(v.AssertID) {
 				// engine-side observation (fs event trace, write set, randomness provenance, crash
 				// schedule): the native run confirmed that the inputs drive the real build down
@@ -332,6 +350,19 @@ func run() int {
 	}
 	if *flagPrefix != "" {
 		return 0
+	}
+	// C11: static single-writer check backing the dispatcher reduction
+	if *flagProp == "C11" && unitRe == nil {
+		vs, n := sym.SingleWriterCheck(prog, repoMod+"/cmd/whawty-auth", repoMod+"/store")
+		fmt.Printf("STATIC single-writer check: %d functions examined, %d violations\n", n, len(vs))
+		samples = append(samples, map[string]interface{}{"static": "single-writer check", "functions_examined": n, "violations": vs})
+		for i, v := range vs {
+			rp := filepath.Join(*flagVerif, "replays", fmt.Sprintf("C11-static-single-writer-%d.json", i))
+			sym.WriteJSON(rp, map[string]interface{}{"property": "C11", "unit": "static:SingleWriter", "assert": "model: store-library-only-reached-from-the-dispatcher-goroutine", "detail": v})
+			nviol++
+			vioLines = append(vioLines, fmt.Sprintf("VIOLATION property=C11 replay=%s", rp))
+			fmt.Printf("  violation static: %s\n", v)
+		}
 	}
 	for _, l := range dedup(knownLines) {
 		fmt.Println(l)
@@ -393,6 +424,8 @@ func run() int {
 		*flagProp, tier, len(evUnits), totalPaths, totalQ, totalAsserts, totalFolded, nviol, nknown, len(inconclusive), wall)
 	return exit
 }
+
+var scheduleDependent = map[string]bool{"C05": true, "C10": true, "C11": true, "C12": true, "C19": true}
 
 // isModelLevel: assertion ids whose oracle is an engine-side observation (DESIGN §4).
 func isModelLevel(id string) bool {
@@ -554,6 +587,9 @@ func replayNative(repo, verif, pkgDir string, hfiles map[string][]string, unit, 
 	cmd.Env = append(os.Environ(), "GOFLAGS=-mod=mod", "GOPROXY=off", "GOSUMDB=off", "GOTOOLCHAIN=local", "VP_REPLAY="+replayPath, "VP_UNIT="+unit)
 	out, _ := cmd.CombinedOutput()
 	s := string(out)
+	if assertID == "no-uncaught-panic" && (strings.Contains(s, "VPPANIC") || strings.Contains(s, "\npanic: ") || strings.HasPrefix(s, "panic: ")) {
+		return "yes", s
+	}
 	switch {
 	case strings.Contains(s, "VPFAIL "+assertID+"\n") || strings.Contains(s, "VPFAIL "+assertID+" "):
 		return "yes", s
